@@ -391,6 +391,11 @@ func (s *handler) handle(ctx context.Context, req request, w func(func(io.Writer
 			}
 
 			callParams[i+1+handler.hasCtx] = reflect.ValueOf(rp.Interface())
+			if !callParams[i+1+handler.hasCtx].IsValid() {
+				// JSON null for an interface-typed parameter: reflect.ValueOf(nil)
+				// is the invalid Value, which Call rejects; pass the typed nil
+				callParams[i+1+handler.hasCtx] = reflect.Zero(typ)
+			}
 		}
 	}
 
